@@ -7,7 +7,7 @@ CONSTANTS
   Plans = {"PL1", "PL2"}
   MaxOps = 100000
   GenHist = FALSE
-  FixRenew = FALSE
+  FixRenew = TRUE
   Bias = "all"
   T0 = 2264761
   H0 = 50
